@@ -359,6 +359,23 @@ theorem c02_spec_tie_order (docs : List Doc) (q : Query) (from_ to : Nat) (limit
     · simp [hm] at hle
       exact Or.inl hle
 
+/-! ## paging: why the stores must receive the offset -/
+
+/-- **A page `[offset, offset + size)` of the merged result needs `offset + size` ids from every store.**  Cutting each
+partial result to `M ≥ offset + size` before merging leaves the page unchanged (`take_orMerge_take`, both directions);
+the store searches with `limit = Size + Offset`, so the proxy must forward both (`c02_x_api_request`). -/
+theorem c02_page_from_cut_results (rev : Bool) (size offset M : Nat) (hM : offset + size ≤ M) (xs ys : List Nat) :
+    ((orMerge rev (xs.take M) ys).take (offset + size)).drop offset =
+      ((orMerge rev xs ys).take (offset + size)).drop offset := by
+  rw [take_orMerge_take rev (offset + size) M hM xs ys]
+
+/-- with only `size` ids per store the page is wrong: stores `[1,2,3]` and `[]`, size 1, offset 1 - the page is `[2]`,
+the merge of the cut results gives `[]` -/
+theorem c02_page_needs_offset :
+    ((orMerge false [1, 2, 3] []).take (1 + 1)).drop 1 = [2] ∧
+    ((orMerge false (([1, 2, 3] : List Nat).take 1) []).take (1 + 1)).drop 1 = [] := by
+  constructor <;> decide +kernel
+
 /-! ## the inverser's pooled table -/
 
 /-- **The pooled `inversion` table is the mapping's position function because `getSlice` clears it**: for *any*
@@ -466,6 +483,13 @@ theorem c02_x_merge_order :
     mergeOrderFacts = ["IDSources.Less: Less(p[i].ID, p[j].ID)", "reverse: sort.Sort(dst.IDs)",
       "regular: sort.Sort(sort.Reverse(dst.IDs))", "seq.Less: if a.MID == b.MID", "seq.Less: return a.RID < b.RID",
       "seq.Less: return a.MID < b.MID"] := by decide
+
+/-- the proxy's store request carries `Size` and `Offset` (and window, total flag, order) unchanged, and a store
+searches with `limit = Size + Offset` -/
+theorem c02_x_api_request :
+    apiRequestFields = ["From: int64(sr.From)", "To: int64(sr.To)", "Size: int64(sr.Size)", "Offset: int64(sr.Offset)",
+      "WithTotal: sr.WithTotal", "Order: storeapi.MustProtoOrder(sr.Order)"] ∧
+    storeLimitExpr = ["limit := int(req.Size + req.Offset)"] := by decide
 
 /-! ## Non-vacuity -/
 
